@@ -228,9 +228,11 @@ func (m *Module) signalMicroTask() (done func()) {
 func (m *Module) concludeMicroTask() {
 	// Finish for module.
 	atomic.AddInt32(m.microTaskCnt, -1)
+	verifPoint("micro.dec", m)
 	m.checkIfStopComplete()
 
 	// Finish and possibly trigger next task.
+	verifPoint("micro.conclude", m)
 	atomic.AddInt32(microTasks, -1)
 	select {
 	case microTaskFinished <- struct{}{}:
@@ -301,6 +303,7 @@ func microTaskScheduler() {
 			// Send clearance signal and increase task counter.
 			if clearanceSignal != nil {
 				close(clearanceSignal)
+				verifPoint("micro.granted", nil)
 				atomic.AddInt32(microTasks, 1)
 			}
 			clearanceSignal = nil
